@@ -1023,11 +1023,13 @@ namespace BitSerializer::Convert::Utf
 			assert(mStartDataPtr <= mEndDataPtr);
 			if (!mInputStream.good())
 			{
-				// Handle uncompleted sequence at the end of file
-				if (result.ErrorCode == UtfEncodingErrorCode::UnexpectedEnd && Detail::HandleEncodingError(outStr, mEncodingErrorPolicy, mErrorMark))
+				// Handle uncompleted sequence at the end of file (including an incomplete code unit, e.g. odd number of bytes in UTF-16)
+				const bool hasIncompleteCodeUnit = result.ErrorCode == UtfEncodingErrorCode::Success && mStartDataPtr != mEndDataPtr;
+				if (result.ErrorCode == UtfEncodingErrorCode::UnexpectedEnd || hasIncompleteCodeUnit)
 				{
+					const bool isHandled = Detail::HandleEncodingError(outStr, mEncodingErrorPolicy, mErrorMark);
 					mStartDataPtr = mEndDataPtr = mEncodedBuffer;
-					return EncodedStreamReadResult::Success;
+					return isHandled ? EncodedStreamReadResult::Success : EncodedStreamReadResult::DecodeError;
 				}
 				return result.ErrorCode == UtfEncodingErrorCode::Success ? EncodedStreamReadResult::Success : EncodedStreamReadResult::DecodeError;
 			}
